@@ -176,6 +176,23 @@ def run(tier, seed):
         if np.max(np.abs(late - ref)) > 1e-12 or not np.array_equal(np.array(r.counts()), refc):
             bad.append(dict(failed="table agrees with the final snapshots and weights of the individual traces (batch stopped early, every trace continued by restart(): table %r, traces now say %r)" % (late.tolist(), ref.tolist()),
                             case=dict(model=mname, cls=cls.__name__, k=k, samples=ns)))
+    # ---- several batches merged into one trace manager (different momenta, so different outcomes): the table stored by compute() is the
+    #      normalised weighted frequency over every trace the manager holds
+    for it in range(2 if tier == "quick" else 12):
+        mname, nst, x0, (klo, khi), bound = SETUPS[it % len(SETUPS)]
+        cls = [mudslide.TrajectorySH, mudslide.TrajectoryCum][it % 2]
+        tmS = TraceManager(); sizes = []
+        for kk, ns in [(klo, rng.randint(2, 4)), (khi, rng.randint(1, 3)), (0.5 * (klo + khi), 2)][: rng.randint(2, 3)]:
+            rS = BatchedTraj(MM[mname](), TrajGenConst([x0], [kk], rng.randrange(nst) if it % 3 == 2 else 0, seed=rng.randrange(2 ** 31)), cls, samples=ns, dt=10.0, bounds=[-bound, bound], max_steps=1500, tracemanager=tmS).compute()
+            sizes.append(ns)
+            finS = finals(rS, "memory", None); WS = sum(w for w, _, _, _ in finS); refS = np.zeros((nst, 2))
+            for w, a, left, _ in finS:
+                refS[a, 0 if left else 1] += w / WS
+            res.count("merged-batches/compute"); 
+            if rS is not tmS or len(finS) != sum(sizes) or np.max(np.abs(np.array(rS.outcomes) - refS)) > 1e-12 or np.max(np.abs(np.array(rS.outcome()) - refS)) > 1e-12:
+                bad.append(dict(failed="the stored table is the normalised weighted frequency over all traces of the manager (batches of %r trajectories merged into one manager: stored %r, traces say %r)" % (sizes, np.array(rS.outcomes).tolist(), refS.tolist()),
+                                case=dict(model=mname, cls=cls.__name__, sizes=sizes))); break
+        res.case(("merged", mname, cls.__name__, tuple(sizes)), True)
     shutil.rmtree(tmproot, ignore_errors=True)
     # ---- command-line driver, averaged rows
     import mudslide.__main__ as mm
